@@ -273,7 +273,10 @@ func c14DerivedQs(under, over, total uint64) []float64 {
 	var out []float64
 	add := func(j int64) {
 		if j >= 0 && uint64(j) <= total {
-			out = append(out, float64(j)/float64(total))
+			q := float64(j) / float64(total)
+			// the boundary itself, one ulp either side, and a little further
+			// off (a rank "epsilon" would move these across the integer)
+			out = append(out, q, math.Nextafter(q, 0), math.Nextafter(q, 2), q*(1-1e-10), q*(1-3e-13))
 		}
 	}
 	u, e := int64(under), int64(total-over)
@@ -941,7 +944,7 @@ func c14LogValues(rng *mon.Rand, b, m, n, count int) []float64 {
 func c14Run(r *mon.Run) {
 	r.Rule("LinearHist: 1..50 bins, min<max of either sign, magnitudes 1e-290..1e290, range/scale >= 1e-6, plus dyadic shapes (power-of-two bin count and width) judged with a zero window; LogHist: bases 2..10, m 1..4, 1..50 bins up to 1e9; streams of 0..500 values from 1e60 ranges below to 1e60 ranges above (|x|<=1e306), dense within one bin width below the first edge and around every edge; after every Add a private copy of Counts() must differ from the previous one in exactly one counter by +1, and that counter must be the reference slot (384-bit edges, 1e-12 window: either side accepted); BinToValue: edges, eighths grid strictly increasing, interpolation law, 12 reference points per shape; HistogramQuantile on ~20 arguments per checkpoint incl. 0, 1 and rank boundaries j/total: both rank readings accepted, NaN iff a reading is outside the bins, value inside the rank interval of a reading, non-decreasing, counters untouched; HistogramIQR = Q(.75)-Q(.25). Harness-defined histograms: every count vector (under, <=3 bins, over each 0..3; thorough 0..4 with <=4 bins) x q=k/12 and k/7, three BinToValue shapes, call budget 4096. Non-trivial: hits a class; distinct by hash of (shape, stream, queries).")
 	r.Assume("ambiguity: a value within 1e-12*max(|min|,|max|) (linear) or 1e-12 relative (log) of a reference edge may be counted on either side; zero window only for dyadic linear shapes with exact x-min, where every float64 formula for the bin index is exact",
-		"rank: g=floor(q*total) in exact arithmetic (both neighbours if the exact product is within 1e-12 relative of an integer without being one); the ranked sample is the one of 0-based index g or g-1; a numeric answer must lie in [BinToValue(bin+k/c), BinToValue(bin+(k+1)/c)] for the k-th of c samples of its bin under one of the readings",
+		"rank: g=floor(q*total) in exact arithmetic; also accepted: the floor of the correctly rounded float64 product, and k when q is exactly float64(k)/float64(total); the ranked sample is the one of 0-based index g or g-1; a numeric answer must lie in [BinToValue(bin+k/c), BinToValue(bin+(k+1)/c)] for the k-th of c samples of its bin under one of the readings",
 		"domain: finite values with |x|<=1e306 (linear) resp. within [1e-300,1e300] (log); range width between 1e-290 and 1e291 and at least 1e-6 of max(|min|,|max|); LogHist values > 0, LogHist max > 1; the bin count of a LogHist is taken from Counts() (the statement does not fix it)",
 		"q in [0,1] only")
 	r.Gate("lin:above-by-more-than-1e20-ranges", "lin:below-first-edge-within-width", "log:below-first-edge-within-width", "under>0-quantile-in-bins", "under>0-quantile-in-bins-only",
